@@ -531,6 +531,14 @@ def math_reqs(tier, seed, unit, nunits, ops, tag):
                 t = rng.uniform(0.05, 8)                      # target |y ln x|
                 ybits = int(t * one * one / j) * rng.choice([1, -1])
                 out.append(treq(op, S, G.clip(s, n, x), D, G.clip(s, n, ybits)))
+            # whole-number exponents far above the iteration bound with bases that never overflow (|x| <= 1 or x = 1 +- j ulp): a pow that
+            # special-cases integer exponents through the linear-time powi does unbounded work exactly here (C17), nowhere near the edge values
+            for kexp in (5, 17, 100, 250, 1000, 4097, 65536):
+                for xb in (one - 1, one + 1, one - (one >> 7), one >> 1, (one * 99) // 100, one + (one >> 12)):
+                    for sg in (1, -1):
+                        yb = sg * kexp * one
+                        if lo <= yb <= hi:
+                            out.append(treq(op, S, xb, D, yb))
         elif op == 't_powi':
             xs = G.math_vals(rng, s, n, f, 40)
             edge_n = [0, 1, -1, 2, -2, 3, 7, -7, 31, 32, 33, 63, 64, 127, 128, 1000, -1000]
